@@ -6,16 +6,24 @@
           the REAL library is driven through DWARFInfo.iter_CUs / line_program_for_CU / LineProgram.get_entries
           (a fraction through ELFFile.get_dwarf_info on an ELF image).  Compared with what the standard's state machine
           (Lean Spec.Line.stdRun) and the encoded header prescribe (property) and with the Lean model (correspondence).
+  edge  : the same, concentrated on what the fourth wave added: extension bytes between the header tables and the
+          program (header_length larger than the known fields; the bytes look like opcodes), and the boundary values of
+          minimum_instruction_length / maximum_operations_per_instruction / line_range (0, 1, 255) with short programs rich
+          in special opcodes, advance_pc and const_add_pc.  With a zero divisor the unit is outside the property's domain:
+          the Lean theorems (line_rows_eq_std_ext / line_zero_division) predict rows or ZeroDivisionError, the prediction
+          is checked against the model and the model against the library.
   raw   : the same sections with bytes flipped / truncated -> real library vs model, errors included.
 """
 import io, signal
 from common import run_impl, canon, hx, rnd_uint, rnd_bytes, BOUNDARY
 import elfbuild
 
-RULE = ('sec: header parameters from boundary pools x uniform (opcode_base 1..255 incl. <10 and >13, line_range 1..255, '
-        'line_base -128..127, min_inst 0..255, max_ops 1..255), version 2..5 x DWARF32/64 x address size 4/8 x byte order, '
+RULE = ('sec: header parameters from boundary pools x uniform (opcode_base 1..255 incl. <10 and >13, line_range 0..255, '
+        'line_base -128..127, min_inst 0..255, max_ops 0..255), version 2..5 x DWARF32/64 x address size 4/8 x byte order, '
+        'header_length = known fields + 0..8 extension bytes, '
         'v5 entry formats over every (content type, allowed form) pair, programs of 0..400 instructions over all opcode kinds '
         'with padded LEB128 operands, several sequences, 1..4 units per section, repeated and absent stmt_list; '
+        'edge: min_inst/max_ops/line_range in {0,1,255,...} x extension bytes x short dividing programs; '
         'raw: byte flips and truncations of those sections. Non-trivial = distinct (section bytes, query); every sec case '
         'parses a header and executes a program.')
 ASSUMPTIONS = ['io.BytesIO read/seek/tell semantics (relative seek clamps at 0)', 'struct.unpack for <>BHIQbhiq',
@@ -101,8 +109,8 @@ def gen_fmt(rng, is_dir):
     return [[ct, rng.choice(LNCT_FORMS[ct])] for ct in cts]
 
 
-def gen_header(rng, le, fmt64, asz, offs, out):
-    ver = rng.choice([2, 3, 4, 5])
+def gen_header(rng, le, fmt64, asz, offs, out, edge=False):
+    ver = rng.choice([2, 3, 4, 5]) if not edge else rng.choice([2, 4, 4, 5, 5])
     opcode_base = rng.choice([13, 13, 13, 13, 10, 1, 2, 4, 9, 12, 14, 17, 20, 255, rng.randrange(1, 256)])
     std_lens = (KNOWN_LENS + [rng.choice([0, 0, 1, 1, 2, 3]) for _ in range(opcode_base)])[:opcode_base - 1]
     if rng.random() < 0.03 and std_lens:
@@ -117,6 +125,17 @@ def gen_header(rng, le, fmt64, asz, offs, out):
         'opcode_base': opcode_base, 'std_lens': std_lens,
         'include_dirs': [], 'files': [], 'dir_fmt': [], 'dirs': [], 'file_fmt': [], 'file_names': [],
     }
+    if edge:
+        h['min_inst'] = rng.choice([0, 0, 1, 255, 255, 2, rng.randrange(256)])
+        if ver >= 4:
+            h['max_ops'] = rng.choice([0, 0, 1, 1, 255, 255, 2, rng.randrange(256)])
+        h['line_range'] = rng.choice([0, 0, 1, 255, 14, 14, rng.randrange(256)])
+    else:
+        # rarely a zero divisor in the ordinary stream too (outside the property's domain: prediction + correspondence)
+        if ver >= 4 and rng.random() < 0.02:
+            h['max_ops'] = 0
+        if rng.random() < 0.02:
+            h['line_range'] = 0
     if ver >= 5:
         h['dir_fmt'] = gen_fmt(rng, True)
         h['file_fmt'] = gen_fmt(rng, False)
@@ -131,7 +150,9 @@ def gen_header(rng, le, fmt64, asz, offs, out):
         h['files'] = [[hx(name(rng)), leb(rng), leb(rng), leb(rng)] for _ in range(rng.choice([0, 1, 1, 2, 4]))]
     out.count('ver:%d' % ver)
     out.count('opcode_base:%s' % ('<10' if opcode_base < 10 else '10..13' if opcode_base <= 13 else '>13'))
-    out.count('max_ops:%s' % ('1' if h['max_ops'] == 1 else '>1'))
+    out.count('max_ops:%s' % ('0' if h['max_ops'] == 0 else '1' if h['max_ops'] == 1 else '255' if h['max_ops'] == 255 else '>1'))
+    out.count('min_inst:%s' % ('0' if h['min_inst'] == 0 else '255' if h['min_inst'] == 255 else 'other'))
+    out.count('line_range:%s' % ('0' if h['line_range'] == 0 else '1' if h['line_range'] == 1 else '255' if h['line_range'] == 255 else 'other'))
     return h
 
 
@@ -174,9 +195,16 @@ def gen_instr(rng, h, kinds, out):
     raise KeyError(k)
 
 
-def gen_program(rng, h, n, out):
+def gen_program(rng, h, n, out, edge=False):
     ob = h['opcode_base']
     kinds = ['special'] * 6
+    if edge:
+        # few dividing instructions, so that programs that never divide (and prefixes that do not) are common
+        kinds = ['special'] * rng.choice([0, 0, 1, 3])
+        for code, nm in ((2, 'advance_pc'), (8, 'const_add_pc')):
+            if code < ob:
+                kinds += [nm] * rng.choice([0, 0, 1, 2])
+        kinds += ['copy'] * (2 if ob > 1 else 0)
     for code, nm in STD_NAMES.items():
         if code < ob:
             kinds += [nm] * (2 if nm in ('copy', 'advance_pc', 'const_add_pc', 'fixed_advance_pc', 'advance_line') else 1)
@@ -193,7 +221,17 @@ def gen_program(rng, h, n, out):
     return prog
 
 
-def gen_section(ctx, rng):
+def gen_ext(rng, edge):
+    """Bytes between the last header table and the program, covered by header_length (DWARF 6.2.4: the program starts
+    header_length bytes past the field).  They look like opcodes, so executing them shows."""
+    if rng.random() >= (0.6 if edge else 0.2):
+        return b''
+    n = rng.choice([1, 1, 2, 3, 4, 8])
+    pool = [0x01, 0x01, 0x00, 0x02, 0x03, 0x08, 0x09, 0x0d, 0x4b, 0xff, 0x80]
+    return bytes(rng.choice(pool) if rng.random() < 0.8 else rng.randrange(256) for _ in range(n))
+
+
+def gen_section(ctx, rng, edge=False):
     out = ctx.out
     le = rng.random() < 0.5
     fmt64 = rng.random() < 0.3
@@ -204,16 +242,24 @@ def gen_section(ctx, rng):
     sup_str, uo = gen_strsec(rng)
     offs = {'line_str': lo, 'str': so, 'sup_str': uo}
     units = []
-    for _ in range(rng.choice([1, 1, 2, 3, 4])):
-        h = gen_header(rng, le, fmt64, asz, offs, out)
+    for _ in range(rng.choice([1, 1, 2, 3, 4]) if not edge else rng.choice([1, 2])):
+        h = gen_header(rng, le, fmt64, asz, offs, out, edge)
         r = rng.random()
-        n = 0 if r < 0.05 else rng.randrange(1, 12) if r < 0.6 else rng.randrange(12, 60) if r < 0.93 else rng.randrange(60, 401)
-        units.append({'header': h, 'instrs': gen_program(rng, h, n, out),
+        if edge:
+            n = 0 if r < 0.08 else rng.randrange(1, 10)
+        else:
+            n = 0 if r < 0.05 else rng.randrange(1, 12) if r < 0.6 else rng.randrange(12, 60) if r < 0.93 else rng.randrange(60, 401)
+        ext = gen_ext(rng, edge)
+        out.count('ext:%s' % ('0' if not ext else '>0'))
+        units.append({'header': h, 'instrs': gen_program(rng, h, n, out, edge), 'ext': hx(ext),
                       'gap': hx(rnd_bytes(rng, rng.choice([0, 0, 0, 1, 3, 8])))})
     nq = len(units)
     queries = list(range(nq))
     rng.shuffle(queries)
-    if rng.random() < 0.4:
+    # a decode that raises half-way (zero divisor) leaves DW_LNE_define_file appends behind in the cached header, which
+    # the model (a function of the bytes) does not reproduce: no second query on such sections
+    zero = any(u['header']['max_ops'] == 0 or u['header']['line_range'] == 0 for u in units)
+    if rng.random() < 0.4 and not zero:
         queries.append(rng.randrange(nq))              # a second CU sharing a line table: _linetable_cache
     cu_ver = rng.choice([2, 3, 4, 5])
     req = {'p': 'C05', 'k': 'sec', 'cfg': [le, 64 if fmt64 else 32, asz, cu_ver], 'units': units, 'queries': queries,
@@ -334,7 +380,8 @@ def run_library(cfg, data, secs, fx, stmt_offsets):
                 return {'entries': [{'command': e.command, 'is_extended': e.is_extended, 'args': canon(e.args),
                                      'state': obs_state(e.state)} for e in es],
                         'file_entry_after': canon(lp.header['file_entry']),
-                        'tell': lp.stream.tell() if first else None}
+                        # compared only when the loop body ran (otherwise the stream stands where the header parse left it)
+                        'tell': lp.stream.tell() if first and lp.program_start_offset < lp.program_end_offset else None}
             r['decode'] = run_impl(decode)
         res.append(r)
     return res
@@ -440,6 +487,25 @@ def check_section(ctx, stream, req, fx, reply, compare_property=True, impl=None)
                 out.violation('property', stream, c, stage=bad[0], expect=bad[1], got=bad[2])
                 seen[q] = seen.get(q, 0) + 1
                 continue
+        kind = reply['kind'][q] if compare_property and 'kind' in reply else 'na'
+        if compare_property and not wf and kind in ('rows', 'zerodiv') and q not in seen:
+            # zero divisor: outside the property's domain, but the theorems predict what the MODEL does
+            # (line_header_roundtrip_ext + line_rows_eq_std_ext / line_zero_division); the library is held to the model below
+            e = reply['expect'][q]
+            pred_parse = {'ok': {'header': e['header'], 'start': e['start'], 'end': e['end']}}
+            bad = None
+            if model.get('parse') != pred_parse:
+                bad = ('parse', pred_parse, model.get('parse'))
+            elif kind == 'zerodiv':
+                out.count('predicted:ZeroDivisionError')
+                if model.get('decode') != {'err': 'zeroDivision'}:
+                    bad = ('decode', {'err': 'zeroDivision'}, model.get('decode'))
+            else:
+                out.count('predicted:rows-with-zero-divisor')
+                if 'ok' not in model.get('decode', {}) or rows_of(model['decode']['ok']) != e['rows']:
+                    bad = ('decode', 'rows of stdRun', _brief(model.get('decode')))
+            if bad is not None:
+                out.violation('correspondence', stream, c, stage='model-vs-theorem:' + bad[0], got=_brief(bad[2]), model=_brief(bad[1]))
         if got != model:
             out.violation('correspondence', stream, c, got=_brief(got), model=_brief(model))
         seen[q] = seen.get(q, 0) + 1
@@ -451,23 +517,26 @@ def _brief(x):
 
 
 # ----------------------------------------------------------------------------- streams
-def run_sec(ctx):
-    rng = ctx.rng('sec')
-    n = ctx.budget(1500, 12000)
+def run_sec(ctx, stream='sec', n=None, keep=None):
+    rng = ctx.rng(stream)
+    edge = stream == 'edge'
+    n = ctx.budget(1500, 12000) if n is None else n
+    keep = ctx.budget(500, 3000) if keep is None else keep
     B = 50
     kept = []
     for i in range(0, n, B):
         if ctx.time_left() < 25:
-            ctx.out.notes.append('sec: stopped early at %d sections (time budget)' % i)
+            ctx.out.notes.append('%s: stopped early at %d sections (time budget)' % (stream, i))
             break
-        batch = [gen_section(ctx, rng) for _ in range(min(B, n - i))]
+        batch = [gen_section(ctx, rng, edge) for _ in range(min(B, n - i))]
         # one request at a time: requests and replies are large (whole sections), batching them can fill both pipes
         for rq, fx in batch:
             rp = ctx.driver.ask(rq)
             if 'fatal' in rp:
                 raise RuntimeError('driver: %s' % rp['fatal'])
-            check_section(ctx, 'sec', rq, fx, rp)
-            if len(kept) < ctx.budget(500, 3000):
+            ctx.out.count(stream)
+            check_section(ctx, stream, rq, fx, rp)
+            if len(kept) < keep:
                 kept.append((rq, fx, rp))
     return kept
 
@@ -527,8 +596,9 @@ def run_raw(ctx, kept):
 
 
 def run(ctx):
+    kept_edge = run_sec(ctx, 'edge', n=ctx.budget(400, 4000), keep=ctx.budget(120, 800))
     kept = run_sec(ctx)
-    run_raw(ctx, kept)
+    run_raw(ctx, kept_edge + kept)
 
 
 def replay(ctx, payload):
@@ -547,7 +617,7 @@ def replay(ctx, payload):
     saved = ctx.out
     ctx.out = Outcome(ctx.prop)
     try:
-        check_section(ctx, v['stream'], req, fx, rp, compare_property=(v['stream'] == 'sec'))
+        check_section(ctx, v['stream'], req, fx, rp, compare_property=(v['stream'] in ('sec', 'edge')))
         vs = ctx.out.violations
     finally:
         ctx.out = saved
